@@ -61,6 +61,8 @@ class Ctx:
         self.cov['states'] += res.distinct
         self.cov['transitions'] += res.generated
         self.cov['tlc_runs'].append(dict(name=name, **res.summary()))
+        if os.environ.get('VERIF_VERBOSE'):
+            print('  tlc %-40s %s' % (name, res.summary()), flush=True)
         for a, (d, t) in res.coverage.items():
             cur = self.cov['actions'].setdefault(a, 0)
             self.cov['actions'][a] = cur + t
